@@ -41,6 +41,32 @@ def same_unit(unyt, u, factor, sym, rec, route, name):
     return True
 
 
+def same_symbol(unyt, val, name, rec, route, registry=None):
+    """the unit reached by attribute / namespace is the *same* unit as the one the string gives: same canonical symbol
+    (expression, printed form, hash) and the quotient of the two cancels to 1 - not merely an equal scale"""
+    if not name or not name.isidentifier():
+        return True
+    try:
+        u = unyt.Unit(name, registry=registry) if registry is not None else unyt.Unit(name)
+    except Exception:
+        return True                      # unusable strings are judged by the string batch
+    rec.count("same-symbol-evaluations")
+    if val.expr != u.expr or str(val) != str(u):
+        rec.violation(f"C14:{route}:symbol-differs-from-string", f"{route} {name!r} is the unit {str(val)!r} (expr {val.expr!r}) but Unit({name!r}) is {str(u)!r} (expr {u.expr!r})", name)
+        return False
+    if hash(val) != hash(u):
+        rec.violation(f"C14:{route}:hash-differs-from-string", f"{route} {name!r}: hash differs from hash(Unit({name!r}))", name)
+        return False
+    try:
+        q = val / u
+        if q.expr != 1:
+            rec.violation(f"C14:{route}:quotient-with-string-does-not-cancel", f"{route} {name!r} / Unit({name!r}) = {q!r}", name)
+            return False
+    except Exception:
+        rec.note("quotient-refused:" + route)         # offset units refuse division
+    return True
+
+
 def worker(batch, rec):
     import unyt
     bid, (kind, payload) = batch
@@ -77,7 +103,7 @@ def worker(batch, rec):
             if r is None:
                 rec.violation("C14:unit_symbols:no-reference-reading", f"unit_symbols.{name} unknown to resolver", name)
                 continue
-            if same_unit(unyt, val, r[0], r[1], rec, "unit_symbols", name):
+            if same_unit(unyt, val, r[0], r[1], rec, "unit_symbols", name) and same_symbol(unyt, val, name, rec, "unit_symbols"):
                 rec.ok("unit_symbols:" + name); n_us += 1
         for name, val in vars(unyt).items():
             if name.startswith("_") or not isinstance(val, unyt.Unit):
@@ -86,7 +112,7 @@ def worker(batch, rec):
             if r is None:
                 rec.violation("C14:toplevel:no-reference-reading", f"unyt.{name} unknown to resolver", name)
                 continue
-            if same_unit(unyt, val, r[0], r[1], rec, "toplevel", name):
+            if same_unit(unyt, val, r[0], r[1], rec, "toplevel", name) and same_symbol(unyt, val, name, rec, "toplevel"):
                 rec.ok("toplevel:" + name); n_top += 1
         # every name of the table must be exported by unit_symbols; top-level unless shadowed by a constant
         for n in all_names():
@@ -119,7 +145,7 @@ def worker(batch, rec):
             if val.registry is not reg:
                 rec.violation("C14:custom-ns:registry", f"namespace unit {name} bound to another registry", name)
                 continue
-            if same_unit(unyt, val, r[0], r[1], rec, "custom-ns", name):
+            if same_unit(unyt, val, r[0], r[1], rec, "custom-ns", name) and same_symbol(unyt, val, name, rec, "custom-ns", registry=reg):
                 rec.ok("custom-ns:" + name); k += 1
         for n in ("kzork", "Mzork"):
             u = unyt.Unit(n, registry=reg)
